@@ -16,6 +16,7 @@ import CqlVerif.Drv.Handled
 import CqlVerif.Drv.Route
 import CqlVerif.Drv.Codec
 import CqlVerif.Drv.Bytes
+import CqlVerif.Drv.Ring
 open CqlVerif.Drv
 
 def dispatch (stream op real : String) : Verdict :=
@@ -38,6 +39,7 @@ def dispatch (stream op real : String) : Verdict :=
   | "route" => RouteStream.handle op real
   | "codec" => CodecStream.handle op real
   | "bytes" => BytesStream.handle op real
+  | "ring" => RingStream.handle op real
   | _ => { kind := "diff", detail := s!"unknown stream {stream}" }
 
 partial def loop (h : IO.FS.Stream) (out : IO.FS.Stream) : IO Unit := do
